@@ -166,7 +166,7 @@ func init() {
 			"a malformed line is: a character that is no decimal digit in the time stamp field (other than a leading sign), odd number of hex digits, a character that is not a hex digit in the hex field (incl. a second separator, which is what a lost terminator produces), no separator, no terminator before end of stream",
 			"lower-case hex digits are not treated as malformed",
 		},
-		Require: []string{"records_decoded", "reader:onebyte", "reader:eof-with-data", "reader:ospipe", "reader:iopipe", "mutant:odd-hex", "mutant:non-hex", "mutant:no-separator", "mutant:no-terminator", "mutant:lost-terminator", "mutants_of_long_lines", "mutant:char-before-terminator", "mutant:bad-timestamp", "mutant_reader:bufio", "reader:bufio", "intact_line_after_mutant_decoded", "two_stream_sessions"},
+		Require: []string{"records_decoded", "reader:onebyte", "reader:eof-with-data", "reader:ospipe", "reader:iopipe", "mutant:odd-hex", "mutant:non-hex", "mutant:no-separator", "mutant:no-terminator", "mutant:lost-terminator", "mutants_of_long_lines", "mutant:char-before-terminator", "mutant:bad-timestamp", "mutant_reader:bufio", "reader:bufio", "intact_line_after_mutant_decoded", "two_stream_sessions", "long_sessions_records_kept"},
 		Run:     runC19,
 	})
 }
@@ -389,6 +389,54 @@ func runC19(c *mon.Ctx) {
 			}
 		}
 		c.DistinctBytes(streams[0], streams[1])
+	})
+
+	// a long session: hundreds of thousands of short records decoded from one stream, all of them kept (a recorder);
+	// what was decoded first must still be what was written when the last record has been decoded
+	c.Each("long-session", c.N(2, 20), func(i int64, r *mon.Rand) {
+		n := r.Pick(450_000, 600_000)
+		stream := make([]byte, 0, n*12)
+		want := make([][]byte, n)
+		for k := 0; k < n; k++ {
+			var m []byte
+			switch k % 5 {
+			case 0:
+				m = []byte{0xC0 | byte(k&15), byte(k & 127)}
+			case 1:
+				m = r.Bytes(1 + r.Intn(32))
+			default:
+				m = []byte{0x90 | byte(k&15), byte(k & 127), byte(k >> 7 & 127)}
+			}
+			want[k] = m
+			stream = append(stream, refLine(int32(k), m)...)
+		}
+		rd := bufio.NewReaderSize(bytes.NewReader(stream), 4096)
+		got := make([][]byte, 0, n)
+		var derr error
+		c.Guard("panic:roundtrip", fmt.Sprintf("stream of %d records", n), func() {
+			for k := 0; k < n; k++ {
+				b, ts, e := midicat.ReadAndConvert(rd)
+				if e != nil || ts != int32(k) {
+					derr = fmt.Errorf("record %d: time stamp %d, error %v", k, ts, e)
+					return
+				}
+				got = append(got, b)
+			}
+		})
+		c.Eval(1)
+		c.Count("long_sessions_records_kept", int64(len(got)))
+		c.Count("records_decoded", int64(len(got)))
+		if derr != nil {
+			c.Violation("roundtrip:long-session", fmt.Sprintf("stream of %d records: %v", n, derr), nil, nil, derr.Error())
+			return
+		}
+		for k := range got {
+			if !bytes.Equal(got[k], want[k]) {
+				c.Violation("roundtrip:long-session", fmt.Sprintf("stream of %d records, all decoded records kept: record %d reads % X after the whole stream was decoded, it was written (and decoded) as % X", n, k, head(got[k], 16), head(want[k], 16)), nil, mon.Hex(want[k]), mon.Hex(got[k]))
+				return
+			}
+		}
+		c.DistinctBytes([]byte(fmt.Sprint("longsession", i, n)))
 	})
 
 	// mutated lines between two intact lines
